@@ -69,6 +69,29 @@ theorem c09_complete_facts (expected : List Nat) (buf : Nat) (collected : List E
         · have : expected.count t = 0 := List.count_eq_zero_of_not_mem hmem
           omega
 
+theorem c09_complete_types (expected : List Nat) (buf : Nat) (collected : List Ev) (ev : Ev)
+    (evs : List Ev) (h : collectEvents expected buf collected ev = .complete evs) :
+    evs.map (·.ty) = expected := by
+  unfold collectEvents at h
+  split at h
+  · cases h
+  · split at h
+    · split at h <;> cases h
+    · rename_i hom
+      injection h with h; subst h
+      have hom' : onlyMissing expected collected ev.ty = true := by simpa using hom
+      obtain ⟨h1, h2⟩ := (onlyMissing_iff _ _ _).mp hom'
+      apply takeInOrder_types
+      intro t
+      rw [count_snoc]
+      by_cases hty : ev.ty = t
+      · subst hty; rw [if_pos rfl]; omega
+      · rw [if_neg hty]
+        by_cases hmem : t ∈ expected
+        · have := h2 t hmem (fun h => hty h.symm); omega
+        · have : expected.count t = 0 := List.count_eq_zero_of_not_mem hmem
+          omega
+
 theorem c09_mem_modifyFirst_cases {α : Type} (p : α → Bool) (f : α → α) (x : α) :
     ∀ (l : List α), x ∈ modifyFirst p f l → x ∈ l ∨ ∃ y ∈ l, p y = true ∧ x = f y
   | [], h => by simp [modifyFirst] at h
@@ -340,5 +363,141 @@ theorem c09_cinv_complete (expected : List Nat) (s : List Ev) (h : C09Conc) (e :
       simp only [List.mem_singleton] at hb; subst hb
       obtain ⟨p, hp, rfl⟩ := List.mem_map.mp ha
       exact c09_left_ne_trig hi hl p hp }
+
+
+/-- a re-run: the invocation stays in its slot, its snapshot becomes a copy of the live buffer -/
+theorem c09_cinv_rerun (expected : List Nat) (s : List Ev) (h : C09Conc) (e : Ev) (hi : C09CInv expected s h) :
+    C09CInv expected s
+      { h with flights := modifyFirst (fun g => g.ev == e) (fun g => { g with snap := h.buffer }) h.flights } := by
+  have hm : ∀ g' ∈ modifyFirst (fun g => g.ev == e) (fun g => { g with snap := h.buffer }) h.flights,
+      ∃ y ∈ h.flights, g'.ev = y.ev ∧ (g'.snap = y.snap ∨ g'.snap = h.buffer) := by
+    intro g' hg'
+    rcases c09_mem_modifyFirst_cases _ _ _ _ hg' with h1 | ⟨y, hy, _, hxy⟩
+    · exact ⟨g', h1, rfl, Or.inl rfl⟩
+    · exact ⟨y, hy, by rw [hxy], Or.inr (by rw [hxy])⟩
+  exact
+  { hi with
+    pendNodup := by
+      show (List.map (·.ev) (modifyFirst (fun g => g.ev == e) (fun g => { g with snap := h.buffer }) h.flights)).Nodup
+      rw [c09_map_modifyFirst (fun g => g.ev == e) (fun g : C09Flight => { g with snap := h.buffer }) (·.ev) (fun a => rfl)]
+      exact hi.pendNodup
+    pendBuf := fun f hf => by
+      obtain ⟨y, hy, he, _⟩ := hm f hf
+      rw [he]; exact hi.pendBuf y hy
+    pendSnap := fun f hf g hg => by
+      obtain ⟨y, hy, he, _⟩ := hm f hf
+      obtain ⟨z, hz, _, hs⟩ := hm g hg
+      rw [he]
+      rcases hs with hs | hs <;> rw [hs]
+      · exact hi.pendSnap y hy z hz
+      · exact hi.pendBuf y hy
+    pendRet := fun f hf => by
+      obtain ⟨y, hy, he, _⟩ := hm f hf
+      rw [he]; exact hi.pendRet y hy
+    pendDrop := fun f hf => by
+      obtain ⟨y, hy, he, _⟩ := hm f hf
+      rw [he]; exact hi.pendDrop y hy
+    subPend := fun f hf => by
+      obtain ⟨y, hy, he, _⟩ := hm f hf
+      rw [he]; exact hi.subPend y hy
+    subSnap := fun f hf => by
+      obtain ⟨y, hy, _, hs⟩ := hm f hf
+      rcases hs with hs | hs <;> rw [hs]
+      · exact hi.subSnap y hy
+      · exact hi.subBuf
+    trigSnap := fun p hp g hg => by
+      obtain ⟨y, hy, _, hs⟩ := hm g hg
+      rcases hs with hs | hs <;> rw [hs]
+      · exact hi.trigSnap p hp y hy
+      · exact hi.trigBuf p hp }
+
+theorem c09_cinv_finish (expected : List Nat) (s : List Ev) (h : C09Conc) (f : C09Flight) (hf : f ∈ h.flights)
+    (hi : C09CInv expected s h) : C09CInv expected s (c09Finish expected h f) := by
+  have hrest := c09_eraseP_ev h.flights f.ev hi.pendNodup
+  have hndr : ((h.flights.eraseP (fun g => g.ev == f.ev)).map (·.ev)).Nodup :=
+    hi.pendNodup.sublist ((List.eraseP_sublist (l := h.flights)).map _)
+  have hi1 := c09_cinv_flights_sub expected s h _ (fun g hg => (hrest g hg).1) hndr hi
+  have hl : C09Left s { h with flights := h.flights.eraseP (fun g => g.ev == f.ev) } f.ev :=
+    { pend := fun g hg => (hrest g hg).2
+      buf := hi.pendBuf f hf
+      snap := fun g hg => hi.pendSnap f hf g (hrest g hg).1
+      ret := hi.pendRet f hf
+      drop := hi.pendDrop f hf
+      inS := hi.subPend f hf }
+  unfold c09Finish
+  split
+  · rename_i evs hc
+    obtain ⟨hin, hsub, _, _⟩ := c09_complete_facts expected 0 f.snap f.ev evs hc
+    have hord : evs.map (·.ty) = expected := by
+      have := c09_complete_types expected 0 f.snap f.ev evs hc
+      exact this
+    exact c09_cinv_complete expected s _ f.ev evs f.snap hi1 hl hin hsub hord (hi.subSnap f hf)
+      (fun x hx g hg hge => hi.pendSnap g (hrest g hg).1 f hf (hge ▸ hx))
+      (fun x hx p hp hpe => hi.trigSnap p hp f hf (hpe ▸ hx))
+  · split
+    · exact c09_cinv_rerun expected s h f.ev hi
+    · exact c09_cinv_add expected s _ f.ev hi1 hl
+  · exact c09_cinv_drop expected s _ f.ev hi1 hl
+  · exact hi1
+
+/-- one action of a schedule that admits no event twice -/
+theorem c09_cinv_step (expected : List Nat) (s : List Ev) (h : C09Conc) (a : C09Act)
+    (hnew : ∀ e, a.started = some e → e ∉ s) (hi : C09CInv expected s h) :
+    C09CInv expected (s ++ a.started.toList) (c09ConcStep expected h a) := by
+  cases a with
+  | start ev => exact c09_cinv_start expected s h ev (hnew ev rfl) hi
+  | finish ev =>
+    simp only [C09Act.started, Option.toList_none, List.append_nil, c09ConcStep]
+    split
+    · rename_i f hfind
+      exact c09_cinv_finish expected s h f (List.mem_of_find?_eq_some hfind) hi
+    · exact hi
+
+theorem c09_cinv_run (expected : List Nat) : ∀ (acts : List C09Act) (s : List Ev) (h : C09Conc),
+    (s ++ acts.filterMap C09Act.started).Nodup → C09CInv expected s h →
+    C09CInv expected (s ++ acts.filterMap C09Act.started) (acts.foldl (c09ConcStep expected) h)
+  | [], s, h, _, hi => by simpa using hi
+  | a :: as, s, h, hnd, hi => by
+    have hnew : ∀ e, a.started = some e → e ∉ s := by
+      intro e he hes
+      rw [List.filterMap_cons, he] at hnd
+      have := (List.nodup_append.mp hnd).2.2 e hes e List.mem_cons_self
+      exact this rfl
+    have h1 := c09_cinv_step expected s h a hnew hi
+    have heq : s ++ (a :: as).filterMap C09Act.started =
+        (s ++ a.started.toList) ++ as.filterMap C09Act.started := by
+      cases hs : a.started <;> simp [List.filterMap_cons, hs]
+    rw [heq] at hnd ⊢
+    exact c09_cinv_run expected as _ _ hnd h1
+
+
+/-- the abstraction of a history with nothing in flight -/
+def C09Conc.toHist (c : C09Conc) : CollectHist :=
+  { buffer := c.buffer, returned := c.returned.map (·.2), dropped := c.dropped }
+
+/-- `start e; finish e` with nothing else in flight is one `collectRound` -/
+theorem c09_single_round (expected : List Nat) (c : C09Conc) (hfl : c.flights = []) (e : Ev) :
+    let c' := c09ConcStep expected (c09ConcStep expected c (.start e)) (.finish e)
+    c'.flights = [] ∧ c'.toHist = collectRound expected c.toHist e := by
+  simp only [c09ConcStep, hfl, List.nil_append, List.find?_cons, beq_self_eq_true, c09Finish, List.eraseP_cons,
+    List.eraseP_nil, C09Conc.toHist, collectRound]
+  cases hc : collectEvents expected 0 c.buffer e with
+  | empty => simp
+  | complete evs => simp
+  | pending r =>
+    cases r with
+    | none => simp
+    | some r => simp
+
+theorem c09_single_flight_run (expected : List Nat) : ∀ (evs : List Ev) (c : C09Conc), c.flights = [] →
+    let c' := (c09SingleFlight evs).foldl (c09ConcStep expected) c
+    c'.flights = [] ∧ c'.toHist = evs.foldl (collectRound expected) c.toHist
+  | [], c, hfl => by simp [c09SingleFlight, hfl]
+  | e :: es, c, hfl => by
+    obtain ⟨h1, h2⟩ := c09_single_round expected c hfl e
+    have ih := c09_single_flight_run expected es _ h1
+    simp only [c09SingleFlight, List.foldl_cons]
+    rw [← h2]
+    exact ih
 
 end Engine
